@@ -22,3 +22,12 @@ def name_with_nul(v):
         return False
     mp = v.get('mapping') or {}
     return any(isinstance(n, str) and '\x00' in n for n in mp.values())
+
+
+def big_endian_frame_repr(v):
+    """D16: the function-call logger formats its arguments eagerly (str(DataFrame)); for a frame of more than
+    display.max_rows (60) rows holding a column in non-native byte order pandas' row truncation (take) raises
+    ValueError 'Big-endian buffer not supported', before ampycloud's own dtype coercion is reached."""
+    return (v.get('clause') == 'variant frame raises' and v.get('variant') == 'dtype_big_endian'
+            and 'Big-endian buffer not supported' in str(v.get('msg', ''))
+            and str(v.get('where')).startswith('inner_deco:'))       # innermost ampycloud frame = the logging decorator
